@@ -146,7 +146,7 @@ func (n *Net) DialOwner(ctx context.Context, network, address, owner string) (ne
 	}
 	n.mu.Lock()
 	n.nextID++
-	c := &Conn{N: n, ID: n.nextID, Owner: owner, H: h, local: Addr{fmt.Sprintf("10.0.0.1:%d", 40000+n.nextID)}, remote: Addr{address}, OpenedAt: n.S.Now(), OpenStep: n.S.Step}
+	c := &Conn{N: n, ID: n.nextID, Owner: owner, H: h, local: Addr{fmt.Sprintf("10.0.0.1:%d", 40000+n.nextID)}, remote: Addr{address}, OpenedAt: n.S.Now(), OpenStep: n.S.StepNow()}
 	n.conns = append(n.conns, c)
 	n.mu.Unlock()
 	return c, nil
@@ -206,6 +206,7 @@ func (c *Conn) Read(b []byte) (int, error) {
 			n := copy(b, c.in)
 			c.in = c.in[n:]
 			c.mu.Unlock()
+			raceAcquire(&ioSync)
 			return n, nil
 		}
 		if c.inRST {
@@ -310,6 +311,7 @@ func (c *Conn) Write(b []byte) (int, error) {
 		c.mu.Unlock()
 		return len(b), nil
 	}
+	raceReleaseMerge(&ioSync)
 	c.out = append(c.out, b...)
 	c.BytesOut += len(b)
 	need := !c.srvNotice
@@ -337,7 +339,7 @@ func (c *Conn) Close() error {
 	}
 	c.closed = true
 	c.ClosedAt = c.N.S.Now()
-	c.ClosedStep = c.N.S.Step
+	c.ClosedStep = c.N.S.StepNow()
 	c.wakeReaders()
 	c.mu.Unlock()
 	c.N.S.After(c.N.latency(), fmt.Sprintf("c%d:client-close", c.ID), func() { c.H.OnClientClose(c) })
